@@ -12,6 +12,8 @@ structure ENode where
   bef : Nat := 0       -- InsertBeforeNamed target
   aft : Nat := 0       -- InsertAfterNamed target
   nonFinal : Bool := false
+  gen : Bool := false  -- supplied through GenerateFromInjectionChain: `nonFinal` is the generator's own mark ...
+  inf : Bool := false  -- ... and this is the NonFinal mark of the (single) provider it is replaced by
 deriving Repr, DecidableEq, Inhabited
 
 inductive EditErr where
@@ -173,7 +175,14 @@ def reorderNonFinal (l : List ENode) : List ENode :=
   | [] => l                        -- all NonFinal: unchanged
   | f :: before => before.reverse ++ (l.reverse.takeWhile (·.nonFinal)).reverse ++ [f]
 
+/-- nject.go `characterizeAndFlatten`, "handle mutations": a generated provider is replaced by what its generator returns
+    (here: one provider, which keeps the generator's place) -/
+def ENode.replaced (n : ENode) : ENode := if n.gen then { n with nonFinal := n.inf, gen := false } else n
+
+/-- named edits, NonFinal, replacement of the generated providers, and NonFinal again if anything was replaced -/
 def editAll (l : List ENode) : Except EditErr (List ENode) :=
-  (handleReplaceByName l).map reorderNonFinal
+  (handleReplaceByName l).map fun l =>
+    let l1 := reorderNonFinal l
+    if l1.any (·.gen) then reorderNonFinal (l1.map ENode.replaced) else l1
 
 end Nject
